@@ -148,6 +148,31 @@ def half_loss(y0):
 def manufacture(rng, alg):
     """returns (recipe, kkt_state, xstar) with the KKT state in the model representation"""
     n = int(rng.integers(2, 6))
+    if alg == "admm" and rng.integers(0, 4) == 0:
+        # complex data, MatrixSubproblemSolver with a MIXED constraint list (complex Diagonal + complex MatrixOperator, legal
+        # since 35adc7f): the Gram matrix of the diagonal constraint is conj(d) * d, which differs from d**2 only here
+        cd = lambda sh, b_, sc_: G.dy(rng, sh, b_, sc_) + 1j * G.dy(rng, sh, b_, sc_)  # noqa: E731
+        rl = lambda a_: G.realify(a_, True).tolist()  # noqa: E731
+        d = cd((n,), 2, 1.5)
+        d[np.abs(d) == 0] = 1.0 + 0.5j
+        m = int(rng.integers(1, 4))
+        M = cd((m, n), 2, 1.0)
+        Cs = [{"t": "diag", "d": d.real.tolist(), "di": d.imag.tolist()}, {"t": "mat", "M": M.real.tolist(), "Mi": M.imag.tolist()}]
+        if rng.integers(0, 2):
+            Cs.reverse()
+        gs = [gen_g(rng, ("sql2", "zero")) for _ in Cs]
+        xs = cd((n,), 2, 1.5)
+        Ms = [np.asarray(G.op_dense(c, [n])[0]) for c in Cs]
+        zs = [Mi @ xs for Mi in Ms]
+        ys = [2.0 * g.get("w", 0.0) * z if g["k"] == "sql2" else np.zeros_like(z) for g, z in zip(gs, zs)]
+        rho = [_P(rng, [0.5, 1.0, 2.0]) for _ in Cs]
+        sc = _P(rng, [0.5, 1.0, 2.0])
+        y0 = xs + sum(Mi.conj().T @ y for Mi, y in zip(Ms, ys)) / (2.0 * sc)
+        recipe = {"alg": "admm", "cplx": True, "xshape": [n], "C": Cs, "g": gs,
+                  "f": {"k": "sqloss", "s": sc, "A": None, "yshape": [n], "y": rl(y0)}, "rho": rho,
+                  "alpha": _P(rng, [1.0, 1.5, 0.5]), "solver": "matrix", "x0": rl(xs)}
+        kkt = {"x": rl(xs), "z": [rl(z) for z in zs], "zold": [rl(z) for z in zs], "u": [rl(y / r) for y, r in zip(ys, rho)]}
+        return recipe, kkt, np.asarray(rl(xs))
     if alg == "admm":
         N = int(rng.integers(1, 4))
         # x* must be compatible with non-negativity constraints: use identity-like operators for those
@@ -317,6 +342,10 @@ def manufacture(rng, alg):
         L0 = lip * _P(rng, [1.0, 1.5, 2.0])
         recipe = {"alg": alg, "cplx": False, "xshape": [n], "f": f, "g": g, "L0": L0, "x0": xs.tolist(),
                   "pol": {"kind": "base", "real": True}, "_lip": lip, "_m": mstrong}
+        if rng.integers(0, 2):
+            # history: a second solver with the default step-size object and a far too small L0 is constructed afterwards
+            # and stays alive; it must not influence this one (see steps_gen.Built)
+            recipe["decoy_L0"] = L0 / 16.0
         if alg == "pgm":
             kkt = {"x": xs.tolist(), "L": L0, "fpr": 0.0, "mem": [0.0]}
         else:
@@ -605,6 +634,11 @@ BUDGET = {"admm": 300, "ladmm": 1500, "padmm": 3000, "nlpadmm": 3000, "pdhg": 20
 def one(ctx, model, rng, alg, recipe, kkt, xs, traj, tag):
     # non-linear C / H make the problem non-convex: only the fixed-point part of the property applies
     nonconvex = False
+    if alg == "admm" and recipe.get("cplx"):
+        traj, nonconvex = False, True  # fixed-point part only (the trajectory monitors are written for real data)
+        ctx.count("admm.complex-mixed-matrix-solver")
+    if recipe.get("decoy_L0") is not None:
+        ctx.count("history:second-solver-with-default-step-size-alive")
     if alg == "pdhg" and recipe.get("nl") is not None:
         traj, nonconvex = False, True
     if alg == "nlpadmm" and any(recipe["H"]["q"]):
